@@ -337,6 +337,14 @@ class Exec:
         if c is not None:
             return gf2.const_word(c & ((1 << w) - 1), w)
         syms = [s_ for s_ in v if s_ != 1]
+        if len(syms) == 1 and v[syms[0]] == 1 and isinstance(syms[0], tuple) and syms[0][0] == "hd" and isinstance(syms[0][1], int) and syms[0][1] >= 0:
+            # a loop-carried integer used as data (a block number that is also compared with a bound): the same symbolic word a word-valued
+            # head phi has, plus the constant part
+            I_ = self.f.insts[syms[0][1]]
+            bits_ = I_.bits or w
+            base = gf2.sym_word(("hdw", syms[0][1]), min(bits_, w)) + [gf2.ZERO] * max(0, w - bits_)
+            k0 = v.get(1, 0)
+            return base if not k0 else gf2.wadd(base, gf2.const_word(k0 & ((1 << w) - 1), w))[0]
         if len(syms) == 1 and v[syms[0]] == 1 and isinstance(syms[0], tuple) and syms[0][0] in ("fld", "n", "hvi"):
             # an integer cell / parameter used as data: a canonical symbolic word (plus its constant part)
             bits_ = self.symbits.get(syms[0])
